@@ -91,3 +91,24 @@ def run_statement(prog: Program, tokens: Sequence[Obj], primary: str, checks: Se
             break
     out.codes, out.positions = sc.codes(), list(sc.positions)
     return out
+
+
+def first_match(prog: Program, tokens: Sequence[Obj], scope: str = "Function", history: Sequence[str] = ("IsBlockStart",),
+                max_steps: int = 60000, **ctx):
+    """The primary that Registry.run would let claim the statement at the head of *tokens*: primaries by descending priority,
+    scope filter applied, first one whose run() reports a match.  -> (primary name | None, Outcome | None)"""
+    from .facts import registry_model
+    rm = registry_model(prog)
+    prims = sorted(rm.primaries, key=lambda c: -(rm.priority.get(c.name) or 0))
+    for c in prims:
+        flt = rm.scope.get(c.name)
+        if flt and scope not in flt:
+            continue
+        if not rm.primary_can_run(c.name):
+            continue
+        o = run_statement(prog, tokens, c.name, (), scope=scope, history=history, max_steps=max_steps, **ctx)
+        if o.hang or o.raised:
+            return c.name, o
+        if o.matched:
+            return c.name, o
+    return None, None
